@@ -41,6 +41,7 @@ class Contract:
         self.hints = kw.pop("hints", [])
         self.at_yield = kw.pop("at_yield", [])
         self.yields = kw.pop("yields", None)  # elem Ty for generators
+        self.yields_expr = kw.pop("yields_expr", None)  # clause: the whole sequence the generator yields
         self.ghost = kw.pop("ghost", {})  # ghost name -> Ty (logical variables)
         self.lets = kw.pop("lets", {})  # name -> clause text evaluated at entry (old values)
         self.trusted = kw.pop("trusted", False)  # assumed, body not verified
@@ -148,6 +149,11 @@ class World:
 
     def pymodule(self, relpath):
         name = relpath[:-3].replace("/", ".")
+        if name.startswith("vyxal.") and "vyxal.helpers" not in sys.modules:
+            try:  # vyxal.LazyList and vyxal.helpers import each other: helpers has to come first
+                importlib.import_module("vyxal.helpers")
+            except Exception:
+                pass
         return importlib.import_module(name)
 
     def find_function(self, key):
@@ -206,7 +212,7 @@ class World:
         return s.mutable if s else set()
 
     # ------------------------------------------------------------------ globals
-    BUILTINS = {"implies", "forall_int", "exists_int", "len", "range", "min", "max", "abs", "divmod", "int", "bool", "str", "list", "tuple", "iter", "next", "isinstance", "type", "all", "any", "chr", "ord", "repr", "reversed", "print", "input", "eval", "exec"}
+    BUILTINS = {"implies", "forall_int", "exists_int", "it_src", "it_pos", "len", "range", "min", "max", "abs", "divmod", "int", "bool", "str", "list", "tuple", "iter", "next", "isinstance", "type", "all", "any", "chr", "ord", "repr", "reversed", "print", "input", "eval", "exec"}
 
     def global_value(self, name, globs):
         if name in self.global_overrides:
@@ -217,7 +223,7 @@ class World:
             from .lemmas import LemmaFn
 
             return LemmaFn(self.lemmas[name])
-        if name in ("implies", "forall_int", "exists_int"):
+        if name in ("implies", "forall_int", "exists_int", "it_src", "it_pos"):
             return Builtin(name)
         if name in globs:
             return self.wrap_global(globs[name], name)
